@@ -146,6 +146,15 @@ where
     }
 }
 
+impl<S, K: Clone> Drop for FairQueue<S, K> {
+    fn drop(&mut self) {
+        // Stream wakers registered with the transports hold a reference to `inner`,
+        // which holds the streams: release the streams explicitly so that dropping
+        // the socket really closes its connections.
+        self.inner.lock().streams.clear();
+    }
+}
+
 impl<S, K: Clone> FairQueue<S, K> {
     pub fn new(block_on_no_clients: bool) -> Self {
         Self {
